@@ -301,6 +301,36 @@ def copy_tree(repo, scratch):
     return rc, out, err
 
 
+def kani_playback(scratch, env, cfg, h):
+    """CBMC's counterexample replayed on the real code: re-run the failed harness with concrete playback, add the generated
+    unit tests to a COPY of the harness file inside the scratch tree and execute them natively (`cargo kani playback`).
+    Returns a failing_input record (found=True only when a generated test really fails against the code)."""
+    try:
+        cmd = ['cargo', 'kani'] + cfg.get('flags', []) + h.get('flags', []) + ['-Z', 'concrete-playback', '--concrete-playback=print', '--harness', h['name']]
+        cmd = ['bash', '-c', 'ulimit -v 24000000; exec "$@"', 'kani'] + cmd
+        rc, out, err = sh(cmd, cwd=scratch, env=env, timeout=h.get('timeout', 1800))
+        tests = re.findall(r'```\n(.*?)```', out, re.S)
+        tests = [t for t in tests if 'kani::concrete_playback_run' in t]
+        if not tests: return dict(found=False, harness=h['name'], note='kani produced no concrete playback test')
+        # the harness file is attached by absolute path: work on a copy inside the scratch tree
+        src_h = None; mod_file = None
+        for mf, hf in cfg['attach'].items():
+            if ('fn %s' % h['name']) in open(os.path.join(VERIF, hf)).read(): src_h, mod_file = os.path.join(VERIF, hf), os.path.join(scratch, mf)
+        if not src_h: return dict(found=False, harness=h['name'], tests=tests[:3], note='harness file not found for playback')
+        cp = os.path.join(scratch, 'verif_playback_' + os.path.basename(src_h))
+        open(cp, 'w').write(open(src_h).read() + '\n#[cfg(kani)]\nmod verif_playback {\nuse super::*;\n' + '\n'.join(tests) + '\n}\n')
+        ms = open(mod_file).read().replace(src_h, cp)
+        open(mod_file, 'w').write(ms)
+        rc, out2, err2 = sh(['cargo', 'kani', 'playback', '-Z', 'concrete-playback', '--', 'kani_concrete_playback'], cwd=scratch, env=env, timeout=900)
+        open(mod_file, 'w').write(ms.replace(cp, src_h))
+        lines = [l for l in (out2 + err2).split('\n') if re.search(r'^test .*(FAILED|ok)$|panicked at|test result', l)]
+        failed = any(l.endswith('FAILED') for l in lines)
+        return dict(found=failed, kind='CBMC counterexample replayed natively on the real code (cargo kani playback)', harness=h['name'],
+                    concrete_playback_tests=tests[:3], replay_output=lines[:12])
+    except Exception as e:
+        return dict(found=False, harness=h['name'], note='playback failed: %s' % e)
+
+
 def kani_unit(name, cfg, repo, build, tier, prop=None):
     """copy the working tree to a scratch dir, append one `#[cfg(kani)] mod` line per harness file, run the harnesses"""
     r = dict(unit=name, kind='kani', status='ok', reason='', diags=[], harnesses=[], wall=0.0)
@@ -361,8 +391,12 @@ def kani_unit(name, cfg, repo, build, tier, prop=None):
             if h['result'] in ('TIMEOUT', 'NO-RESULT'):
                 r.update(status='undecided', reason='kani harness %s: %s %s' % (h['name'], h['result'], h['out'][-1500:]))
             elif not ok:
+                fi = None
+                if not h.get('should_panic'):
+                    fi = kani_playback(scratch, env, cfg, h)
                 r['diags'].append(dict(message='kani harness %s FAILED: %s' % (h['name'], '; '.join(h['failed_checks'][:4])), fn=h.get('function', h['name']), block=None,
-                                       line=0, kind='kani', tags=h['tags'], clause=h['failed_checks'][:6], source_status='in place', rendered=h['out'][-4000:]))
+                                       line=0, kind='kani', tags=h['tags'], clause=h['failed_checks'][:6], source_status='in place', rendered=h['out'][-4000:],
+                                       failing_input=fi))
     finally:
         shutil.rmtree(scratch, ignore_errors=True)
         r['wall'] = time.time() - t0
@@ -638,10 +672,20 @@ def main():
         rp = os.path.join(VERIF, 'replays', '%s-%s.json' % (prop, time.strftime('%Y%m%d-%H%M%S')))
         # a failing input replayed on the real code: the bounded runtime harness ran next to the verifier; take a history it
         # found for this property (or, failing that, any history it found on this tree)
+        # 1. an input attached to one of the violations themselves (a history of the runtime harness, or CBMC's counterexample
+        #    replayed natively on the real code); 2. otherwise a history the runtime harness found on this tree that is NOT one
+        #    of the recorded known findings; never the input of a known finding
         failing = None
-        cands = [d for r in results if r['kind'] == 'rt' for d in r['diags']]
-        mine = [d for d in cands if prop in d['tags']] or cands
-        if mine: failing = mine[0].get('failing_input')
+        own = [d.get('failing_input') for _, d, _ in violations if d.get('failing_input') and d['failing_input'].get('found')]
+        if own: failing = own[0]
+        else:
+            known_diags = {id(d) for _, d, _ in known_hits}
+            cands = [d for r in results if r['kind'] == 'rt' for d in r['diags'] if id(d) not in known_diags and 'pattern=KF-' not in d.get('message', '')]
+            mine = [d for d in cands if prop in d['tags']] or cands
+            if mine: failing = mine[0].get('failing_input')
+            if failing is None:
+                anyfi = [d.get('failing_input') for _, d, _ in violations if d.get('failing_input')]
+                if anyfi: failing = anyfi[0]
         found = bool(failing and failing.get('found'))
         json.dump(dict(property=prop, repo=repo_state(a.repo), failing_input=failing,
                        failed_obligations=[dict(unit=r['unit'], function=d['fn'], kind=d['kind'], message=d['message'], obligation=d['clause'], tags=d['tags'],
